@@ -100,17 +100,19 @@ impl BuildOuts {
     /// this function removes duplicates from the output list.
     pub fn remove_duplicates(&mut self) {
         let mut ids = Vec::new();
+        let mut explicit = 0;
         for (i, &id) in self.ids.iter().enumerate() {
             if self.ids[0..i].iter().any(|&prev| prev == id) {
                 // Skip over duplicate.
-                if i < self.explicit {
-                    self.explicit -= 1;
-                }
                 continue;
+            }
+            if i < self.explicit {
+                explicit += 1;
             }
             ids.push(id);
         }
         self.ids = ids;
+        self.explicit = explicit;
     }
 }
 
